@@ -121,3 +121,259 @@ def ternary_probes(pty, level=1):
 
 def singles(vals):
     return [(v, v) for v in vals]
+
+
+# ------------------------------------------------------------------------------------------------ rounding matrix for the binary operations
+
+def _frac_bits_at(p, scale):
+    """number of fraction bits of format p at binary scale `scale` (0 when the regime / exponent fill the word)"""
+    k = scale >> p.es
+    reg = (k + 2) if k >= 0 else (-k + 1)
+    return max(0, p.n - 1 - reg - p.es)
+
+
+def _enc(p, scale, frac_num, frac_len):
+    """encoding of 2^scale * (1 + frac_num / 2^frac_len) if exactly representable, else None"""
+    v = Fraction(2) ** scale * (1 + Fraction(frac_num, 1 << frac_len) if frac_len else Fraction(2) ** scale)
+    e = p.encode(v)
+    return e if p.decode(e) == v else None
+
+
+def op_probes(pty, op, level=1):
+    """operand pairs whose exact result realises, at every result scale of the format, each rounding situation of the posit rule:
+    exactly representable / below the midpoint / tie with even and odd last bit / above the midpoint / carry out of an all-ones
+    fraction.  Built from the format definition alone (directed construction, no search)."""
+    p = pty.posit
+    n, es = p.n, p.es
+    m = p.mask
+    maxs = (n - 2) << es
+    out = []
+    scales = list(range(-maxs, maxs))
+    if level <= 1:
+        scales = [s for s in scales if (s & ((1 << es) - 1)) in (0, (1 << es) - 1)] if es else scales
+    fb0 = _frac_bits_at(p, 0)
+
+    def add(a, b):
+        if a is not None and b is not None:
+            out.append((a & m, b & m))
+
+    for s in scales:
+        fbs = _frac_bits_at(p, s)
+        if op in ('mul', 'div'):
+            # a = (1 + F) at scale 0 with fb0 fraction bits, b = 2^s (mul) or 2^-s (div): the result is 2^s (1 + F), rounded to fbs bits
+            drop = fb0 - fbs
+            if drop < 1:
+                continue
+            pw = _enc(p, s if op == 'mul' else -s, 0, 0)
+            if pw is None:
+                continue
+            keep_alt = int('10' * fbs, 2) >> fbs if fbs else 0      # alternating kept bits
+            for x in (0, 1):
+                kept = ((keep_alt >> 1) << 1 | x) if fbs else 0
+                if fbs == 0 and x:
+                    continue
+                for r, st in ((0, 0), (0, 1), (1, 0), (1, 1)):
+                    if drop == 1 and st:
+                        continue
+                    low = (r << (drop - 1)) | (st if drop > 1 else 0)
+                    a = _enc(p, 0, (kept << drop) | low, fb0)
+                    add(a, pw)
+                    if level > 1 or (x, r, st) in ((1, 1, 0), (0, 1, 0)):
+                        if op == 'mul':
+                            add(pw, a)
+                        add((-a) & m if a is not None else None, pw)
+            # all-ones kept bits with the round bit set: the increment carries into exponent / regime
+            if fbs:
+                kept = (1 << fbs) - 1
+                low = 1 << (drop - 1)
+                add(_enc(p, 0, (kept << drop) | low, fb0), pw)
+        else:
+            # a = 2^s (1 + F) with fbs fraction bits; b = half an ulp of a (tie), just above it, just below it
+            hs = s - fbs - 1
+            tie = _enc(p, hs, 0, 0)
+            if tie is None:
+                continue
+            fbh = _frac_bits_at(p, hs)
+            above = _enc(p, hs, 1, fbh) if fbh else None
+            fbl = _frac_bits_at(p, hs - 1)
+            below = _enc(p, hs - 1, (1 << fbl) - 1, fbl) if fbl else _enc(p, hs - 1, 0, 0)
+            pats = [0, 1] if fbs else [0]
+            if fbs > 1:
+                pats += [(1 << fbs) - 1, (1 << fbs) - 2, int('10' * fbs, 2) >> fbs]
+            for F in pats:
+                a = _enc(p, s, F, fbs)
+                for b in (tie, above, below):
+                    if op == 'add':
+                        add(a, b)
+                        if level > 1 or b == tie:
+                            add(b, a)
+                            add((-a) & m if a is not None else None, (-b) & m if b is not None else None)
+                    else:
+                        add(a, b)
+                        if level > 1 or b == tie:
+                            add((-a) & m if a is not None else None, b)
+    seen = set()
+    uniq = []
+    for pr in out:
+        if pr not in seen:
+            seen.add(pr)
+            uniq.append(pr)
+    return uniq
+
+
+def fma_probes(pty, level=1):
+    """(a, b, c) with a*b + c realising, at the result scales of the format, the rounding situations that only a fused operation meets:
+    the addend c carries the kept bits, the exact product a*b = 2^t (1 + 2^-d) supplies the round bit and one sticky bit d places
+    below it (d up to the full significand length: the sticky bit lies far below the target precision), with and without a carry of
+    the sum into the next binade, exact ties, values just below the midpoint, and the negated family.  Directed construction."""
+    p = pty.posit
+    n, es = p.n, p.es
+    m = p.mask
+    maxs = (n - 2) << es
+    fb0 = _frac_bits_at(p, 0)
+    out = []
+    scales = list(range(-maxs, maxs))       # unrepresentable members of a family are dropped by _enc
+    if level <= 1 and n > 16:
+        scales = [s for s in scales if (s >> es) % 2 == 0 and (s & ((1 << es) - 1)) in (0, (1 << es) - 1)]
+    elif level <= 1 and es:
+        scales = [s for s in scales if (s & ((1 << es) - 1)) in (0, (1 << es) - 1)]
+    depths = sorted({1, 2, max(1, fb0 // 2), fb0 - 1, fb0}) if fb0 > 1 else [1]
+    depths = [d for d in depths if 1 <= d <= fb0]
+
+    def one_plus(d):
+        return _enc(p, 0, 1 << (fb0 - d), fb0)           # 1 + 2^-d
+
+    def add(a, b, c):
+        if a is not None and b is not None and c is not None:
+            out.append((a & m, b & m, c & m))
+            if level > 1:
+                out.append(((-a) & m, b & m, (-c) & m))
+
+    for s in scales:
+        fb = _frac_bits_at(p, s)
+        Fs = [0] + ([1] if fb else []) + ([(1 << fb) - 1, int('01' * fb, 2) & ((1 << fb) - 1)] if fb > 1 else [])
+        for F in Fs:
+            c = _enc(p, s, F, fb)
+            t = s - fb - 1                                  # position of the round bit
+            bt = _enc(p, t, 0, 0)
+            if c is None or bt is None:
+                continue
+            add(p.encode(Fraction(1)), bt, c)               # exact tie
+            for d in depths:
+                add(one_plus(d), bt, c)                     # tie + sticky bit d places below
+            bl = _enc(p, t - 1, 0, 0)
+            if bl is not None:
+                for d in depths[:2] + depths[-1:]:
+                    add(_enc(p, 0, ((1 << d) - 1) << (fb0 - d), fb0), bl, c)   # just below the midpoint: 2^(t-1) * 1.11..1
+            # carry into the next binade: c = 2^(s-1) (1 + 2F) + 2^(s-fb-1), product 2^(s-1) (1 + 2^-d), F < 1/2
+            if fb and F < (1 << (fb - 1)) and _frac_bits_at(p, s - 1) >= fb:
+                cc = _enc(p, s - 1, (F << 1) | 1, fb)
+                bc = _enc(p, s - 1, 0, 0)
+                if cc is not None and bc is not None:
+                    for d in depths:
+                        if d > fb:
+                            add(one_plus(d), bc, cc)
+    # squares (1 + 2^-x)^2 = 1 + 2^(1-x) + 2^-2x: a product with exactly three set bits, the lowest one 2x places down (deeper than any
+    # posit can hold).  Placed so that the top bit completes an all-ones addend to the next power of two (carry-out), the middle bit is the
+    # round bit and the lowest bit is the only sticky bit; and the same without the carry.
+    sq_scales = scales if (level > 1 or n <= 16) else scales[::2]
+    for s in sq_scales:
+        fb = _frac_bits_at(p, s)
+        rpos = s - fb - 1
+        for x in range(2, fb0 + 1):
+            ax = _enc(p, 0, 1 << (fb0 - x), fb0)
+            u = rpos + (x - 1)
+            if u < s:
+                bx = _enc(p, u, 1 << (_frac_bits_at(p, u) - x), _frac_bits_at(p, u)) if _frac_bits_at(p, u) >= x else None
+                ones = s - u                                 # c = 2^s - 2^u = 2^(s-1) * 1.1..1 (ones-1 fraction ones)
+                fbc = _frac_bits_at(p, s - 1)
+                cc = _enc(p, s - 1, ((1 << (ones - 1)) - 1) << (fbc - (ones - 1)), fbc) if 1 <= ones - 1 <= fbc else (_enc(p, s - 1, 0, 0) if ones == 1 else None)
+                add(ax, bx, cc)
+            u2 = rpos                                        # no carry: the top bit of the square is the round bit
+            bx2 = _enc(p, u2, 1 << (_frac_bits_at(p, u2) - x), _frac_bits_at(p, u2)) if _frac_bits_at(p, u2) >= x else None
+            add(ax, bx2, _enc(p, s, 0, 0))
+            if fb:
+                add(ax, bx2, _enc(p, s, 1, fb))
+    seen = set()
+    uniq = []
+    for tr in out:
+        if tr not in seen:
+            seen.add(tr)
+            uniq.append(tr)
+    return uniq
+
+
+def fma_sparse_probes(pty, per_m=6, max_tries=4096):
+    """(a, b, c) for the fused operations whose exact product has a *lone lowest bit*: A*B = X * 2^(m+1) + 2^m + 1 for full-length
+    significands A, B (found by a modular inverse, no search over results): bit m becomes the round bit, bit 0 the only sticky bit
+    (m - 1 zeros in between, deeper than the target precision), and the addend c = 2^s - X * 2^(m+1-...) is chosen so that c + X...
+    carries into the next binade.  The exact value is 2^s + half an ulp + one far-away bit: it must round up; a kernel that loses the
+    lowest product bit anywhere (alignment shift, renormalisation after the carry) treats it as a tie and rounds to even."""
+    p = pty.posit
+    n, es = p.n, p.es
+    m_ = p.mask
+    fb0 = _frac_bits_at(p, 0)
+    W = fb0 + 1                                  # significand width incl. hidden bit
+    lo_sig, hi_sig = 1 << fb0, (1 << W) - 1
+    maxs = (n - 2) << es
+    full_scales = [s for s in range(-maxs, maxs) if _frac_bits_at(p, s) == fb0]
+    out = []
+    for m in range(3, 2 * fb0 + 1):
+        mod = 1 << (m + 1)
+        found = 0
+        tries = 0
+        A = lo_sig + 1
+        step = max(2, ((hi_sig - lo_sig) // max_tries) | 1) * 2
+        while A <= hi_sig and found < per_m and tries < max_tries:
+            tries += 1
+            inv = pow(A, -1, mod)
+            B0 = (inv * ((1 << m) + 1)) % mod
+            # B = B0 + j * mod inside the significand range
+            j = max(0, (lo_sig - B0 + mod - 1) // mod)
+            B = B0 + j * mod
+            if lo_sig <= B <= hi_sig:
+                P = A * B
+                assert P & (mod - 1) == (1 << m) + 1
+                L = P.bit_length()
+                X = P >> (m + 1)
+                xl = X.bit_length()
+                found_s = 0
+                # choose the result scale s: needs fb(s) fraction bits with the round bit right below them, X fitting in the kept bits
+                for s in range(-maxs + 2, maxs):
+                    fb = _frac_bits_at(p, s)
+                    if fb < 1 or xl > fb:
+                        continue
+                    rpos = s - fb - 1                       # round-bit position = bit m of the product
+                    u = rpos + (L - 1 - m)                  # scale of the product's leading bit
+                    # c = 2^s - X * 2^(rpos + 1): the kept part of the product completes c to the next power of two
+                    cval = Fraction(2) ** s - X * Fraction(2) ** (rpos + 1)
+                    if cval <= 0:
+                        continue
+                    c = p.encode(cval)
+                    if p.decode(c) != cval:
+                        continue
+                    # split the product scale between the factors (both must keep their full significand)
+                    sa_sb = u - (1 if L == 2 * W else 0)    # scale(a) + scale(b)
+                    done = False
+                    for sa in full_scales:
+                        sb = sa_sb - sa
+                        if sb in full_scales:
+                            a = _enc(p, sa, A - lo_sig, fb0)
+                            b = _enc(p, sb, B - lo_sig, fb0)
+                            if a is not None and b is not None:
+                                out.append((a & m_, b & m_, c & m_))
+                                done = True
+                                break
+                    if done:
+                        found += 1
+                        if found_s >= 2:
+                            break
+                        found_s += 1
+            A += step
+    seen = set()
+    uniq = []
+    for tr in out:
+        if tr not in seen:
+            seen.add(tr)
+            uniq.append(tr)
+    return uniq
